@@ -20,6 +20,7 @@ import (
 // Worker owns one proxy instance, its fake cluster and the scripted clients.
 type Worker struct {
 	Cfg     *Config
+	banned  map[string]bool // pools seen banned in the current scenario
 	H       *Host
 	Cl      *Cluster
 	Log     *EventLog
@@ -98,7 +99,20 @@ func (w *Worker) fdNames(s *core.VerifSnap) map[int]string {
 // sync waits until everything the proxy wrote has reached its peers and has been processed by
 // the fake nodes / read by the clients.
 func (w *Worker) sync() *core.VerifSnap {
-	s := core.VerifSnapshot(false)
+	s := core.VerifSnapshot(true)
+	// a connect to a node that failed (the pool is banned): on purpose when the scenario took the node down, otherwise
+	// because the machine is overloaded (the connect timed out); either way requests may now be answered with the
+	// proxy's "unknown proxy pool conn" error, which is the environment's doing
+	for _, p := range s.Pools {
+		if p.Banned && !w.banned[p.Addr] {
+			w.banned[p.Addr] = true
+			name := p.Addr
+			if n := w.Cl.NodeByAddr(p.Addr); n != nil {
+				name = n.Name
+			}
+			w.Log.Add(Event{Ev: "envfault", N: name, Txt: "connect failed"})
+		}
+	}
 	deadline := time.Now().Add(2 * time.Second)
 	for _, c := range s.Conns {
 		if c.Kind == "s" {
@@ -694,6 +708,7 @@ func (w *Worker) topoEvent(kind, tAt, rAt string, iter bool) Event {
 func (w *Worker) RunScenario(sc *Scenario) {
 	w.Log.Tid++
 	w.Log.Add(Event{Ev: "begin", Txt: sc.Id, K: sc.Role})
+	w.banned = map[string]bool{}
 	for _, st := range sc.Steps {
 		for _, x := range st.Stim {
 			if x.Op == "topo" || x.Op == "race" {
